@@ -100,6 +100,12 @@ def _interp(ctx, cls: str, q: str, out: Scalings, depth: int, self_is_subject: b
         if tgt is None:
             return False
         ch = attr_chain(tgt)
+        # a local that names an attribute of a subject (`samples = rated.samples`, bound once): the store goes to that attribute
+        if ch and len(ch) >= 2 and ch[0] not in subject and ch[0] not in stackvars and ch[0] not in loopvars:
+            ds_ = [n.value for n in ast.walk(fn.node) if isinstance(n, ast.Assign) and len(n.targets) == 1 and isinstance(n.targets[0], ast.Name) and
+                   n.targets[0].id == ch[0]]
+            if len(ds_) == 1 and attr_chain(ds_[0]) and attr_chain(ds_[0])[0] in subject:
+                ch = attr_chain(ds_[0]) + ch[1:]
         if ch is None and isinstance(tgt, ast.Subscript) and isinstance(tgt.value, ast.Name) and tgt.value.id in stackvars and \
                 isinstance(tgt.slice, ast.Constant):
             ch = [tgt.value.id, tgt.slice.value]
